@@ -10,6 +10,7 @@ the split-apply-combine pipeline and agreement with a dense reference."""
 from __future__ import annotations
 
 import logging
+import os
 import warnings
 
 import numpy as np
@@ -252,6 +253,21 @@ def _op_balance(self, op):
             args.append("--cis-only")
         if opts.get("trans_only"):
             args.append("--trans-only")
+        bedpath = None
+        if opts.get("blacklist"):
+            # the blacklist as the command line takes it: a BED file naming each bad bin's interval
+            bt = coll.bins
+            bedpath = os.path.join(self.S, "blacklist_%d.bed" % self.__dict__.setdefault("_nbed", 0))
+            self._nbed += 1
+            with open(bedpath, "w") as fh:
+                # a one-line file without a header is taken for a header by csv.Sniffer (the CLI then
+                # fails in np.concatenate([])): text parsing, outside C11 - see DESIGN 7.3
+                if cfg.get("bed_header") or len(opts["blacklist"]) < 2:
+                    fh.write("chrom\tstart\tend\n")
+                for b in opts["blacklist"]:
+                    fh.write("%s\t%d\t%d\n" % (coll.chromnames[int(bt["chrom"].iloc[b])], int(bt["start"].iloc[b]), int(bt["end"].iloc[b])))
+            args += ["--blacklist", bedpath]
+            self.stat("balance-cli-blacklist")
         args.append(uri)
         tap = _Tap()
         log.addHandler(tap)
@@ -317,7 +333,7 @@ def _op_balance(self, op):
             try:
                 if cfg["map"] == "cli":
                     bias, stats, vars_, choices = run_cli(cfg)
-                    if opts.get("blacklist") or opts.get("x0") is not None or not opts.get("rescale", True):
+                    if opts.get("x0") is not None or not opts.get("rescale", True):
                         continue
                 else:
                     bias, stats, vars_, choices = run_one(cfg)
